@@ -227,6 +227,12 @@ func c23ErrName(err error) string {
 	return "other"
 }
 
+// c23OversizeBroken is set once this process has seen the frame-size limit not being enforced (a
+// violation is already recorded). From then on inputs that claim more than 64 MiB are no longer fed
+// to the stream readers: a reader that ignores the limit would allocate the claimed gigabytes and
+// take the process (and the recorded violation) down. Never set on code that enforces the limit.
+var c23OversizeBroken bool
+
 // c23StreamModel parses a byte stream the way the property describes frame reading: returns for each
 // complete frame its bytes; stops at the first frame the reader must reject.
 func c23StreamFirst(x []byte, max uint32) (frame []byte, ok bool) {
@@ -244,6 +250,9 @@ func c23StreamFirst(x []byte, max uint32) (frame []byte, ok bool) {
 // parsers. heavy=false skips the stream paths (used when totalLen claims a multi-MiB frame inside a
 // large product, where the stream paths would only repeat the same header decision).
 func c23CheckBytes(x []byte, stream bool) (obs string, calls int, sig, detail string) {
+	if c23OversizeBroken && len(x) >= 4 && binary.BigEndian.Uint32(x) > 64<<20 {
+		stream = false
+	}
 	now := time.Now().UnixNano()
 	rl, rm := c23RefLegacy(x), c23RefMeta(x)
 	var ob strings.Builder
@@ -448,7 +457,7 @@ func c23Values4(f c23Frame, fld c23Field, full bool) []uint64 {
 	vs := []int64{0, 1, 7, 8, 9, 11, 12, 13, a - 1, a, a + 1, L - 1, L, L + 1, 1<<31 - 1, 1 << 31, 1<<32 - 1,
 		1<<32 - 12 - N, 1<<32 + L - 12 - N, 1<<32 - 8 - N} // the last three wrap 12+N+K / 8+N to 0 / L in 32-bit arithmetic
 	if full {
-		vs = append(vs, 4, 255, 256, 65535, 65536, 1<<24, int64(defaultMaxFrameSize)-1, int64(defaultMaxFrameSize), int64(defaultMaxFrameSize)+1,
+		vs = append(vs, 4, 255, 256, 65535, 65536, 1<<24, 1<<25, 1<<26, int64(defaultMaxFrameSize)-1, int64(defaultMaxFrameSize), int64(defaultMaxFrameSize)+1,
 			L-8, L-12, L-12-N, L-8-N, L-12-N+1, 1<<32-2)
 	}
 	return c23Uniq(vs, 1<<32-1)
@@ -492,6 +501,23 @@ func c23Allowed(limit uint32, inputLen int) uint64 {
 	return c23Pow2Ceil(uint64(limit)) + 64*uint64(inputLen) + 128<<10
 }
 
+// c23CountUnfittable: read as a metadata-format frame, the input has a metadata section whose header
+// count cannot fit into the section (every header needs >= 4 bytes, the trailer 8). Used to give the
+// allocation excess caused by such a count its own structural signature.
+func c23CountUnfittable(x []byte) bool {
+	if len(x) < 12 {
+		return false
+	}
+	T := uint64(binary.BigEndian.Uint32(x[0:4]))
+	N := uint64(binary.BigEndian.Uint32(x[4:8]))
+	K := uint64(binary.BigEndian.Uint32(x[8:12]))
+	if T < 12 || uint64(len(x)) < T || 12+N+K > T || K < 10 {
+		return false
+	}
+	count := uint64(binary.BigEndian.Uint16(x[12+N:]))
+	return count > (K-10)/4
+}
+
 func c23ClientPipeline(x []byte, limit uint32) {
 	fr, err := readProtoFrame(&c23ChunkReader{data: x}, c23Pool, limit)
 	if err != nil {
@@ -505,8 +531,157 @@ func c23ClientPipeline(x []byte, limit uint32) {
 // scenarios
 
 func c23Robust(t *testing.T, corpus []c23Msg, rp *c23ReplayReq) {
-	nm := vsched.Pick(2, 4)
+	nm := vsched.Pick(2, 8)
 	full := vsched.Rep().Thorough()
+
+	// ---- complete frames against frame limits around their own size
+	func() {
+		const scen = "frame-limit"
+		e := vsched.NewEnum(scen, map[string]any{"domain": "every base frame and the exact 255/256/257/4096/4097-byte frames (length L), complete on the stream, read under limit in {8, L-1, L, L+1, 2L}: readProtoFrame and the server loop must reject iff L > limit"})
+		vsched.Bubble(t, func() {
+			base := c23BaseFrames(corpus, nm)
+			for _, n := range []int{255, 256, 257, 4096, 4097} {
+				if sm, ok := c23SizedMsg(n); ok {
+					f, _ := c23Ser.MarshalBinary(sm.m)
+					base = append(base, c23Frame{label: sm.label, b: f, want: &c23Want{m: sm.m, name: string(proto.MessageName(sm.m)), v: c23MD{legacy: true}}})
+				}
+			}
+			for _, f := range base {
+				L := len(f.b)
+				for _, limit := range []int{8, L - 1, L, L + 1, 2 * L} {
+					in := fmt.Sprintf("frame=%s len=%d limit=%d", f.label, L, limit)
+					if !c23Mine(e) || rp.skip(scen, in) {
+						continue
+					}
+					over := L > limit
+					var obs strings.Builder
+					func() {
+						defer func() {
+							if p := recover(); p != nil {
+								e.Fail("panic@frame-limit", in, "%v", p)
+							}
+						}()
+						for _, pool := range []*FramePool{nil, c23Pool} {
+							fr, err := readProtoFrame(&c23ChunkReader{data: f.b}, pool, uint32(limit))
+							fmt.Fprintf(&obs, "R:%s ", c23ErrName(err))
+							if over && err == nil {
+								c23OversizeBroken = true
+								e.Fail("oversized-frame-accepted@readProtoFrame", in, "frame of %d bytes returned under limit %d", L, limit)
+							}
+							if !over && (err != nil || !bytes.Equal(fr, f.b)) {
+								e.Fail("frame-within-limit-rejected@readProtoFrame", in, "err=%v", err)
+							}
+							if err == nil && pool != nil {
+								pool.Put(fr)
+							}
+						}
+						got, _, p := c23Serve(f.b, 0, uint32(limit), false)
+						fmt.Fprintf(&obs, "S:%d", len(got))
+						if p != nil {
+							e.Fail("panic@server", in, "%v", p)
+						}
+						if over && len(got) != 0 {
+							c23OversizeBroken = true
+							e.Fail("oversized-frame-dispatched@server", in, "frame of %d bytes reached the handler under limit %d", L, limit)
+						}
+						if !over {
+							if len(got) != 1 {
+								e.Fail("frame-within-limit-rejected@server", in, "handler calls: %d", len(got))
+							} else if sg, d := f.want.check("frame-limit-server", got[0].msg, got[0].name, got[0].md); sg != "" {
+								e.Fail(sg, in, "%s", d)
+							}
+						}
+					}()
+					e.Case(in, fmt.Sprintf("L=%d limit=%d over=%v %s", L, limit, over, obs.String()), 3, true)
+				}
+			}
+		})
+		e.Done()
+	}()
+
+	// ---- allocation bound under configured frame limits
+	func() {
+		const scen = "alloc-bound"
+		limits := []uint32{4096, 65536, 1 << 20, defaultMaxFrameSize}
+		e := vsched.NewEnum(scen, map[string]any{"limits": limits, "domain": "every single length-field mutation of every base frame, read through readProtoFrame(limit)+unmarshalProtoResponse and through the server read loop (maxFrameSize=limit); bytes allocated during the call (runtime.MemStats.TotalAlloc delta) must stay <= pow2ceil(limit) + 64*len(input) + 128 KiB"})
+		vsched.Bubble(t, func() {
+			base := c23BaseFrames(corpus, nm)
+			for _, f := range base { // warm-up: type registry cache, protobuf lazy tables, pools
+				c23ClientPipeline(f.b, defaultMaxFrameSize)
+				c23Serve(f.b, 0, defaultMaxFrameSize, false)
+			}
+			for _, f := range base {
+				for _, fld := range c23Fields(f) {
+					var vals []uint64
+					if fld.width == 4 {
+						vals = c23Values4(f, fld, true)
+					} else {
+						vals = c23Values2(fld)
+					}
+					for _, v := range vals {
+						for _, limit := range limits {
+							in := fmt.Sprintf("frame=%s %s=%d limit=%d", f.label, fld.name, v, limit)
+							if !c23Mine(e) || rp.skip(scen, in) {
+								continue
+							}
+							if c23OversizeBroken && fld.name == "totalLen" && v > 64<<20 {
+								continue // see c23OversizeBroken
+							}
+							x := append([]byte(nil), f.b...)
+							c23Put(x, fld, v)
+							kind := strings.TrimRight(fld.name, "0123456789")
+							if c23CountUnfittable(x) {
+								kind = "unfittable-header-count"
+							}
+							allowed := c23Allowed(limit, len(x))
+							measure := func(run func()) uint64 {
+								best := c23Alloc(run)
+								for i := 0; i < 2 && best > allowed; i++ { // repeat: only a reproducible excess counts
+									if a := c23Alloc(run); a < best {
+										best = a
+									}
+								}
+								return best
+							}
+							var p any
+							func() {
+								defer func() { p = recover() }()
+								ac := measure(func() { c23ClientPipeline(x, limit) })
+								as := measure(func() { c23Serve(x, 0, limit, false) })
+								if (ac > allowed || as > allowed) && fld.name == "totalLen" {
+									c23OversizeBroken = true
+								}
+								if ac > allowed {
+									e.Fail("allocation-exceeds-frame-limit:"+kind+"@client", in, "allocated %d bytes reading a %d-byte input under frame limit %d (allowed %d)", ac, len(x), limit, allowed)
+								}
+								if as > allowed {
+									e.Fail("allocation-exceeds-frame-limit:"+kind+"@server", in, "allocated %d bytes reading a %d-byte input under frame limit %d (allowed %d)", as, len(x), limit, allowed)
+								}
+								bucket := func(a uint64) string {
+									switch {
+									case a > allowed:
+										return "over"
+									case a > uint64(limit):
+										return "pool-rounding"
+									case a > 64<<10:
+										return ">64K"
+									case a > 4<<10:
+										return ">4K"
+									}
+									return "small"
+								}
+								e.Case(in, fmt.Sprintf("%s limit=%d client=%s server=%s", kind, limit, bucket(ac), bucket(as)), 2, v != fld.val)
+							}()
+							if p != nil {
+								e.Fail("panic@alloc-bound", in, "%v", p)
+							}
+						}
+					}
+				}
+			}
+		})
+		e.Done()
+	}()
 
 	// ---- prefixes
 	func() {
@@ -802,78 +977,4 @@ func c23Robust(t *testing.T, corpus []c23Msg, rp *c23ReplayReq) {
 		e.Done()
 	}()
 
-	// ---- allocation bound under configured frame limits
-	func() {
-		const scen = "alloc-bound"
-		limits := []uint32{4096, 65536, 1 << 20, defaultMaxFrameSize}
-		e := vsched.NewEnum(scen, map[string]any{"limits": limits, "domain": "every single length-field mutation of every base frame, read through readProtoFrame(limit)+unmarshalProtoResponse and through the server read loop (maxFrameSize=limit); bytes allocated during the call (runtime.MemStats.TotalAlloc delta) must stay <= pow2ceil(limit) + 64*len(input) + 128 KiB"})
-		vsched.Bubble(t, func() {
-			base := c23BaseFrames(corpus, nm)
-			for _, f := range base { // warm-up: type registry cache, protobuf lazy tables, pools
-				c23ClientPipeline(f.b, defaultMaxFrameSize)
-				c23Serve(f.b, 0, defaultMaxFrameSize, false)
-			}
-			for _, f := range base {
-				for _, fld := range c23Fields(f) {
-					var vals []uint64
-					if fld.width == 4 {
-						vals = c23Values4(f, fld, true)
-					} else {
-						vals = c23Values2(fld)
-					}
-					kind := strings.TrimRight(fld.name, "0123456789")
-					for _, v := range vals {
-						for _, limit := range limits {
-							in := fmt.Sprintf("frame=%s %s=%d limit=%d", f.label, fld.name, v, limit)
-							if !c23Mine(e) || rp.skip(scen, in) {
-								continue
-							}
-							x := append([]byte(nil), f.b...)
-							c23Put(x, fld, v)
-							allowed := c23Allowed(limit, len(x))
-							measure := func(run func()) uint64 {
-								best := c23Alloc(run)
-								for i := 0; i < 2 && best > allowed; i++ { // repeat: only a reproducible excess counts
-									if a := c23Alloc(run); a < best {
-										best = a
-									}
-								}
-								return best
-							}
-							var p any
-							func() {
-								defer func() { p = recover() }()
-								ac := measure(func() { c23ClientPipeline(x, limit) })
-								as := measure(func() { c23Serve(x, 0, limit, false) })
-								if ac > allowed {
-									e.Fail("allocation-exceeds-frame-limit:"+kind+"@client", in, "allocated %d bytes reading a %d-byte input under frame limit %d (allowed %d)", ac, len(x), limit, allowed)
-								}
-								if as > allowed {
-									e.Fail("allocation-exceeds-frame-limit:"+kind+"@server", in, "allocated %d bytes reading a %d-byte input under frame limit %d (allowed %d)", as, len(x), limit, allowed)
-								}
-								bucket := func(a uint64) string {
-									switch {
-									case a > allowed:
-										return "over"
-									case a > uint64(limit):
-										return "pool-rounding"
-									case a > 64<<10:
-										return ">64K"
-									case a > 4<<10:
-										return ">4K"
-									}
-									return "small"
-								}
-								e.Case(in, fmt.Sprintf("%s limit=%d client=%s server=%s", kind, limit, bucket(ac), bucket(as)), 2, v != fld.val)
-							}()
-							if p != nil {
-								e.Fail("panic@alloc-bound", in, "%v", p)
-							}
-						}
-					}
-				}
-			}
-		})
-		e.Done()
-	}()
 }
